@@ -105,27 +105,51 @@ func vhMainCount(s *Signature) int {
 //verif:replay-iters 200
 func VH_C13_AggregateOrder(k, level, nf, perm int) {
 	s := vhSnapshot(k, famLoc, nf, nf, perm)
+	// validity of parsed snapshots: package-main membership is a function of
+	// the function name and the location class a function of the file, so
+	// frames with the same function (the file is the same everywhere here)
+	// agree on both
+	for i, g := range s.Goroutines {
+		for _, h := range s.Goroutines[:i] {
+			for f := range g.Stack.Calls {
+				x, y := &g.Stack.Calls[f], &h.Stack.Calls[f]
+				vAssume(vImplies(x.Func.Complete == y.Func.Complete, vAnd(x.Func.IsPkgMain == y.Func.IsPkgMain, x.Location == y.Location)))
+			}
+		}
+	}
 	a := s.Aggregate(Similarity(level))
 	vReach("aggregated")
+	// what a bucket contains is what its members contain: the contract is
+	// checked on a member's own signature, not on the merged one
+	member := func(b *Bucket) *Signature {
+		for _, g := range s.Goroutines {
+			if g.ID == b.IDs[0] {
+				return &g.Signature
+			}
+		}
+		return &b.Signature
+	}
 	for i, b := range a.Buckets {
 		vAssert(vImplies(b.First, i == 0), "the bucket of the first goroutine comes first")
+		bs := member(b)
 		for j := i + 1; j < len(a.Buckets); j++ {
 			c := a.Buckets[j]
+			cs := member(c)
 			// b precedes c
 			if i > 0 || !b.First {
-				vAssert(vNot(vAnd(vNot(b.First), vAnd(vhAllStdlib(&b.Signature), vhHasUserCode(&c.Signature)))), "a stdlib-only bucket precedes a bucket with user code")
-				vAssert(vImplies(vNot(b.First), vhMainCount(&b.Signature) >= vhMainCount(&c.Signature)), "a bucket with fewer main frames precedes one with more")
+				vAssert(vNot(vAnd(vNot(b.First), vAnd(vhAllStdlib(bs), vhHasUserCode(cs)))), "a stdlib-only bucket precedes a bucket with user code")
+				vAssert(vImplies(vNot(b.First), vhMainCount(bs) >= vhMainCount(cs)), "a bucket with fewer main frames precedes one with more")
 			}
 		}
 	}
 }
 
-// VH_C13_AggregateOrder4: four goroutines, one frame each (thorough).
+// VH_C13_AggregateOrder4: four goroutines, one frame each: the smallest
+// snapshot with a first bucket, a merged bucket and a third one.
 //
 //verif:prop C13
-//verif:tier thorough
 //verif:param k 4
-//verif:param level 0,3
+//verif:param level quick=3 thorough=0,3
 //verif:param nf 1
 //verif:param perm 0,23
 //verif:summarize (*Signature).similar (*Signature).equal (*Signature).less (*Stack).less
